@@ -145,6 +145,7 @@ def export_batch(cases):
             c.program = sasm.Program(c.lines, c.args)
         code = code_records(c.program)
         rt = rt_record(c.program)
+        c.meta['guard_labels'] = len(rt['guardpcs'])
         gkey = (id(c.lines), tla(code), tla(rt), c.program.word)
         if gkey not in index:
             index[gkey] = len(groups)
